@@ -25,7 +25,7 @@ def p3_lemmas(tier, wf_only=False, ndjson=(0, 1), ks=None):
                         desc="unifiedMachine (real updateChar/peekSize over a pre-filled index channel split at arbitrary markup "
                              "points, real atom checkers, addNumber, parseString wrapper) on every message with %d structural "
                              "tokens at gaps from %s bytes, all bytes symbolic subject to REF-SCAN(message) = layout: "
-                             "verdict = general reference parser; on accept: scope stack empty, tape well-formed, tape = "
+                             "verdict = general reference parser; on accept: tape well-formed, tape = "
                              "reference document under the traversal APIs, copy mode => every string flagged" % (K, gaps),
                         bound="%d structural tokens, gaps %s, message <= %d bytes; strings without escapes (escapes: lemmas S); parseNumber "
                               "= its summary (lemma P2)" % (K, gaps, (8 if wset == 0 else 5) * (K - 1) + 1),
@@ -79,7 +79,7 @@ def p3_skeleton_lemmas(tier, ndjson=(0, 1)):
                                 split_depth=0, intr=Stage2SummIntrinsics,
                                 desc="unifiedMachine on valid token skeleton #%d (%s) with, in turn, each token left completely free (every "
                                      "single-token deviation of the skeleton and the skeleton itself), scalar slots of 1/4/5/8 symbolic bytes, "
-                                     "index stream handed over at any markup point: verdict, scope stack, tape format and contents vs the "
+                                     "index stream handed over at any markup point: verdict, tape format and contents vs the "
                                      "reference parser" % (i, "ndjson" if nd else "json"),
                                 bound="documents up to 11 tokens (list in harness/zz_verif_p3.go), one free token at a time; strings without escapes; parseNumber = its summary",
                                 expect_reach=["P3s.returned"]))
